@@ -1,16 +1,26 @@
 #!/bin/bash
-# seed_matrix.sh : run every stored seeded change against the check of the property it targets (and extra pairs given in
-# tools/seed_extra.txt as "<seed> <PROP>"), quick tier; writes seeded/RESULTS.txt.  Applies to /repo and reverts each time.
+# seed_matrix.sh [NWORKERS] : run every stored seeded change against the check of the property it targets (and extra pairs
+# given in tools/seed_extra.txt as "<seed> <PROP>"), quick tier; writes seeded/RESULTS.txt.  Each worker applies the patch
+# in its own scratch worktree /tmp/seedrepo<k> (VERIF_REPO) and reverts it; /repo itself is never touched.
 cd /verif
-out=seeded/RESULTS.txt; : > $out
+N=${1:-3}
 pairs=$(for d in seeded/*/; do s=$(basename $d); echo "$s ${s%%_*}"; done; cat tools/seed_extra.txt 2>/dev/null)
-echo "$pairs" | while read s p; do
-  [ -z "$s" ] && continue
-  git -C /tmp/seedrepo apply /verif/seeded/$s/patch.diff 2>/dev/null || { echo "$s $p APPLY-FAILED" >> $out; continue; }
-  VERIF_REPO=/tmp/seedrepo VERIF_OUT=/tmp/seedout timeout 1500 python3 check.py $p --tier quick > /tmp/sm_${s}_$p.log 2>&1; rc=$?
-  git -C /tmp/seedrepo checkout -- .
-  v=$(grep -c "^VIOLATION" /tmp/sm_${s}_$p.log); i=$(grep -c "^INCONCLUSIVE" /tmp/sm_${s}_$p.log)
-  h=$(grep "^VIOLATION" /tmp/sm_${s}_$p.log | sed 's/.*# harness \([^:]*\):.*/\1/' | sort -u | tr '\n' ',' )
-  echo "$s $p rc=$rc violations=$v inconclusive=$i harnesses=$h" >> $out
-done
-git -C /tmp/seedrepo status --short | grep -v _build >> $out
+worker() {
+  k=$1; R=/tmp/seedrepo$k; [ $k = 1 ] && R=/tmp/seedrepo
+  i=0
+  echo "$pairs" | while read s p; do
+    [ -z "$s" ] && continue
+    i=$((i+1)); [ $((i % N)) -ne $((k % N)) ] && continue
+    git -C $R apply /verif/seeded/$s/patch.diff 2>/dev/null || { echo "$s $p APPLY-FAILED" >> /tmp/seed_results_$k.txt; continue; }
+    VERIF_REPO=$R VERIF_OUT=/tmp/seedout$k timeout 2400 python3 check.py $p --tier quick > /tmp/sm_${s}_$p.log 2>&1; rc=$?
+    git -C $R checkout -- .
+    v=$(grep -c "^VIOLATION" /tmp/sm_${s}_$p.log); inc=$(grep -c "^INCONCLUSIVE" /tmp/sm_${s}_$p.log)
+    h=$(grep "^VIOLATION" /tmp/sm_${s}_$p.log | sed 's/.*# harness \([^:]*\):.*/\1/' | sort -u | head -8 | tr '\n' ',' )
+    echo "$s $p rc=$rc violations=$v inconclusive=$inc harnesses=$h" >> /tmp/seed_results_$k.txt
+  done
+}
+rm -f /tmp/seed_results_*.txt
+for k in $(seq 1 $N); do worker $k & done
+wait
+cat /tmp/seed_results_*.txt | sort > seeded/RESULTS.txt
+for k in $(seq 1 $N); do R=/tmp/seedrepo$k; [ $k = 1 ] && R=/tmp/seedrepo; git -C $R status --short | grep -v _build >> seeded/RESULTS.txt; done
